@@ -669,6 +669,13 @@ func (fg *FnGen) evalSel(x *CSel, env *CEnv) *Val {
 				if v := fg.pkgConst(path, x.Name); v != nil {
 					return v
 				}
+				// package-level variable of another package: its current value
+				if sp := fg.g.ssaPkgs[path]; sp != nil {
+					if gv := sp.Var(x.Name); gv != nil {
+						addr := fg.val(gv)
+						return fg.loadIn(env.st, fg.derefQuiet(addr))
+					}
+				}
 				panic(unsupported("unknown constant " + id.Name + "." + x.Name))
 			}
 		}
@@ -1135,7 +1142,16 @@ func (fg *FnGen) evalCall(x *CCall, env *CEnv) *Val {
 		}
 		return &Val{T: tBool, L: []Term{Eq(v.L[0], IntLit(int64(id)))}}
 	case "int", "int32", "int64", "uint32", "uint64", "byte", "uint8", "uint", "int8", "int16", "uint16", "string":
-		return fg.evalC(x.Args[0], env)
+		a := fg.evalC(x.Args[0], env)
+		if id.Name == "string" && len(a.L) == 4 {
+			// string(bytes): the same function of the bytes as the conversion in the code, in the state at hand
+			saved := fg.cur
+			fg.cur = env.st
+			r := fg.convertQuiet(a, types.Typ[types.String])
+			fg.cur = saved
+			return r
+		}
+		return a
 	case "ite":
 		c := fg.evalBool(x.Args[0], env)
 		a := fg.evalC(x.Args[1], env)
